@@ -18,8 +18,8 @@ case "$place" in .*|module*|root*) place=. ;; esac
 echo "demo=$demo place=$place" >> $out
 git apply $src/patch.diff && echo "apply: ok" >> $out || { echo "apply: FAIL" >> $out; }
 go build ./... && echo "build: ok" >> $out || echo "build: FAIL" >> $out
-for i in 1 2; do
-  go test -vet=off -count=1 -timeout 25m ./... > $src/verify-suite$i.log 2>&1
+for i in $(seq 1 ${SEEDVERIFY_RUNS:-2}); do
+  go test -p ${SEEDVERIFY_P:-8} -vet=off -count=1 -timeout 25m ./... > $src/verify-suite$i.log 2>&1
   fails=$(grep -E '^(--- FAIL|FAIL)' $src/verify-suite$i.log | tr '\n' ' ')
   echo "suite run $i with change: ${fails:-all ok}" >> $out
 done
